@@ -620,13 +620,37 @@ def reparseAll (fuel : Nat) (v : JV N) : JV N :=
     match v with
     | .num n =>
       -- a number that still carries a spelling of its own keeps it
-      if (NumOps.canon n).contains '~' then v else
+      if (NumOps.canon n).contains '~' || NumOps.isInf n then v else
       (match NumOps.print n with
        | some s => (match (NumOps.ofLit s : Option N) with | some m => .num m | none => v)
        | none => v)
     | .arr xs => .arr (xs.map (reparseAll fuel))
     | .obj fs => .obj (fs.map fun (k, x) => (k, reparseAll fuel x))
     | v => v
+
+/-- does the value contain a number whose succinctly representation the model does not determine -/
+def hasUnstable (fuel : Nat) (v : JV N) : Bool :=
+  match fuel with
+  | 0 => false
+  | fuel + 1 =>
+    match v with
+    | .num n => NumOps.unstable n
+    | .arr xs => xs.any (hasUnstable fuel)
+    | .obj fs => fs.any fun (_, x) => hasUnstable fuel x
+    | _ => false
+
+/-- succinctly dialect: a freshly computed result with an unstable number (`NumOps.unstable`) ends
+the model's verdict for the run -/
+def stableRes (d : Dialect) (r : Res N) : Res N :=
+  match r with
+  | none => none
+  | some outs =>
+    if d.succinctly && outs.any (fun o =>
+        match o with
+        | .val x _ => hasUnstable 200 x
+        | .err x => hasUnstable 200 x
+        | _ => false) then none
+    else some outs
 
 /-- jq's parser diagnostic for a string that is a single garbage token (the only shape succinctly
 and the recorded probes pin down); anything with separators or brackets: no verdict -/
@@ -784,7 +808,8 @@ def prim (d : Dialect) (name : String) (args : List (JV N)) (v : JV N) (p : PInf
   | "isnan", [] =>
     (match v with
      | .num n => ok (.bool (NumOps.isNan n))
-     | v => subjErr v "number required")
+     -- succinctly answers `false` for a non-number (jq 1.7.1: "number required")
+     | v => if d.succinctly then ok (.bool false) else subjErr v "number required")
   | "explode", [] =>
     (match v with
      | .str s => ok (.arr (s.toList.map fun c => JV.ofNat c.toNat))
@@ -1168,6 +1193,14 @@ def evalStep (d : Dialect) (rec : Rec N) (e : Expr) (env : Env N) (v : JV N) (p 
        | some h => do
          let hr ← rec h env ev p.drop
          pure (r.dropLast ++ hr))
+    -- succinctly: `try` also catches a `break` (as an error with payload `null`); jq lets it pass
+    | some (.brk _) =>
+      if !d.succinctly then pure r else
+      (match handler with
+       | none => pure r.dropLast
+       | some h => do
+         let hr ← rec h env .null p.drop
+         pure (r.dropLast ++ hr))
     | _ => pure r
   | .arr none => okV p (.arr [])
   | .arr (some a) => do
@@ -1186,7 +1219,7 @@ def evalStep (d : Dialect) (rec : Rec N) (e : Expr) (env : Env N) (v : JV N) (p 
     let r ← rec a env v .off
     bindOut r (fun x _ =>
       match x with
-      | .num n => okV p (.num (NumOps.neg n))
+      | .num n => stableRes d (okV p (.num (NumOps.neg n)))
       | x => subjErr x "cannot be negated")
   | .pipe a b => do
     let r ← rec a env v p
@@ -1202,7 +1235,7 @@ def evalStep (d : Dialect) (rec : Rec N) (e : Expr) (env : Env N) (v : JV N) (p 
       let ls ← rec a env v .off
       bindOut ls (fun lv _ =>
         if isCmpOp op then okV p (.bool (cmpOp op lv rv))
-        else (arithOp op lv rv).map (retag p)))
+        else stableRes d ((arithOp op lv rv).map (retag p))))
   | .and_ a b => do
     let ls ← rec a env v .off
     bindOut ls (fun lv _ =>
@@ -1301,6 +1334,12 @@ def evalStep (d : Dialect) (rec : Rec N) (e : Expr) (env : Env N) (v : JV N) (p 
       bindParams params args self
     | none =>
       match name, args with
+      -- prelude-internal: `f`, but a run of `f` that halts has no verdict
+      | "_nohalt", [f] => do
+        let r ← rec f env v p
+        match terminatorOf r with
+        | some (.halt _ _) => none
+        | _ => pure r
       | "path", [f] => do
         let r ← rec f env v (.at [])
         bindOut r (fun w q =>
@@ -1330,8 +1369,8 @@ def evalStep (d : Dialect) (rec : Rec N) (e : Expr) (env : Env N) (v : JV N) (p 
           let runs ← args.mapM (fun a => rec a env v .off)
           -- succinctly evaluates an argument generator only once (first value); not modelled
           if d.succinctly && runs.any (fun r => r.length != 1 || terminated r) && name != "error" then
-            (if runs.all (fun r => r.length == 1) then cartArgs runs.reverse [] (fun vals => prim d name vals v p) else none)
-          else cartArgs runs.reverse [] (fun vals => prim d name vals v p)
+            (if runs.all (fun r => r.length == 1) then cartArgs runs.reverse [] (fun vals => stableRes d (prim d name vals v p)) else none)
+          else cartArgs runs.reverse [] (fun vals => stableRes d (prim d name vals v p))
 
 /-- the evaluator: `fuel` bounds the nesting depth of evaluation steps -/
 def eval (d : Dialect) : Nat → Rec N
